@@ -219,7 +219,8 @@ func twinProject(w *wire.World, o *wire.Obs, svc int, id string) twinOut {
 			t.ncl++
 			t.rest = append(t.rest, sip.Header{Name: "content-length", Value: h.Value})
 		default:
-			t.rest = append(t.rest, sip.Header{Name: sip.Canon(h.Name), Value: tn(h.Value)})
+			// (a generated extension name may contain the case id by chance: it was replaced like every other occurrence)
+			t.rest = append(t.rest, sip.Header{Name: strings.ReplaceAll(sip.Canon(h.Name), strings.ToLower(id), "CASE"), Value: tn(h.Value)})
 		}
 	}
 	t.body = o.Msg.Body
